@@ -130,7 +130,7 @@ def load(path):
 
 
 def describe(c):
-    d = dict(c)
+    d = {k: v for k, v in c.items() if not k.startswith("_")}
     for k in ("val", "want", "sql"):
         if d.get(k) is not None:
             d[k + "_text"] = bytes.fromhex(d[k]).decode("utf8", "backslashreplace")
@@ -183,6 +183,8 @@ def run_correspondence(ck, known):
                 return
             verd_all.update(v)
         for c in cases:
+            if 0 <= c["base"] < len(bases):
+                c["_base"] = bases[c["base"]]
             if c.get("tq") and 0 <= c["base"] < len(bases) and bases[c["base"]].get("tq"):
                 tq_pairs.append((c, bases[c["base"]]))
         for c in cases:
@@ -264,6 +266,18 @@ def run_tree_tie(ck, sq_cases, tag):
     reqs = [c for c in sq_cases if c.get("logql")]
     if not reqs:
         return
+    # the baseline request (harmless marker in the same position) of every case is planned as well: the segmented text for the hostile
+    # request must be the marker's text with the marker replaced inside the value pieces (the instance of request_values_keep_statement_structure)
+    ncase = len(reqs)
+    base_idx = {}
+    for c in list(reqs):
+        b = c.get("_base")
+        if b and b.get("logql") and bytes.fromhex(b["marker"]):
+            k = (b["logql"], bool(b.get("cluster")))
+            if k not in base_idx:
+                base_idx[k] = len(reqs)
+                reqs.append({"site": c["site"], "logql": b["logql"], "cluster": b.get("cluster"), "want": "", "val": b["marker"], "is_base": True})
+            c["_base_req"] = base_idx[k]
     ok, out = ck.coq_make(["model/SqlPiecesCases.vo"])
     if not ck.obligation("model/SqlPiecesCases.v builds", ok, out[-1500:]):
         return
@@ -271,12 +285,15 @@ def run_tree_tie(ck, sq_cases, tag):
         ck.obligation("harness logqlsql builds against the repository", False, ck.build_out[-1500:])
         return
     inp = os.path.join(ck.work, "tree_%s_in.jsonl" % tag)
-    with open(inp, "w") as f:
+    # the request text goes to harness logqlsql as a JSON string carrying the request's own bytes (round 3: it was written as the
+    # latin-1 reading of the bytes re-encoded as UTF-8, so non-ASCII values were re-planned as mojibake); Go's JSON decoder turns a byte
+    # that is not UTF-8 into U+FFFD, which is also what the LogQL parser's own literal decoding does with it
+    with open(inp, "wb") as f:
         for i, c in enumerate(reqs):
             ctx = dict(LOGQL_CTX)
             ctx["cluster"] = bool(c.get("cluster"))
             f.write(json.dumps({"id": i, "query": bytes.fromhex(c["logql"]).decode("utf8", "surrogateescape"),
-                                "ctx": ctx, "runs": 1, "metric": True, "class": [c["site"]]}, ensure_ascii=False) .encode("utf8", "surrogateescape").decode("latin1") + "\n")
+                                "ctx": ctx, "runs": 1, "metric": True, "class": [c["site"]]}, ensure_ascii=False).encode("utf8", "surrogateescape") + b"\n")
     outp = os.path.join(ck.work, "tree_%s_out.jsonl" % tag)
     rc, out = ck.go_run("logqlsql", ["--cases", inp, "--out", outp])
     if rc != 0:
@@ -311,6 +328,7 @@ def run_tree_tie(ck, sq_cases, tag):
             res[int(parts[0])] = parts[1:]
     mism, notok, leaked, nstmt, located, npieces, nvals, unmodelled = [], [], [], 0, 0, 0, 0, 0
     by_site = {}
+    pieces_of = {}
     for c in usable:
         rq = reqs[c["id"]]
         want = bytes.fromhex(rq["want"]) if rq.get("want") else b""
@@ -331,6 +349,7 @@ def run_tree_tie(ck, sq_cases, tag):
                 break
             if okf != "1":
                 notok.append(c)
+            pieces_of.setdefault(c["id"], []).append([(pc[0], bytes.fromhex(pc[1:])) for pc in pcs.split(",") if pc])
             for pc in pcs.split(","):
                 if not pc:
                     continue
@@ -345,19 +364,45 @@ def run_tree_tie(ck, sq_cases, tag):
                         found = True
                 elif len(want) >= 3 and any(ch in want for ch in SPECIAL) and want in body and ".ident." not in rq["site"]:
                     leaked.append((c, body))
+        if rq.get("is_base"):
+            continue
         located += 1 if found else 0
-        bs = by_site.setdefault(rq["site"], [0, 0])
+        bs = by_site.setdefault(rq["site"], [0, 0, 0])
         bs[0] += 1
         bs[1] += 1 if found else 0
-    n = len(usable) - unmodelled
+    # piecewise comparison with the marker's segmented text
+    notsubst, ncmp = [], 0
+    for c in usable:
+        rq = reqs[c["id"]]
+        bi = rq.get("_base_req")
+        if rq.get("is_base") or bi is None or c["id"] not in pieces_of or bi not in pieces_of:
+            continue
+        b = rq["_base"]
+        mk = bytes.fromhex(b["marker"])
+        want = bytes.fromhex(rq["want"]) if rq.get("want") else b""
+        repl = like_escape(want) if rq.get("mode") == "like" else want
+        exp = [[(k, body.replace(mk, repl) if k in ("L", "Q") else body) for k, body in st] for st in pieces_of[bi]]
+        ncmp += 1
+        by_site.setdefault(rq["site"], [0, 0, 0])[2] += 1
+        if exp != pieces_of[c["id"]]:
+            notsubst.append(c)
+            if os.environ.get("C10_DEBUG"):
+                for se, sg in zip(exp, pieces_of[c["id"]]):
+                    for a, b2 in zip(se, sg):
+                        if a != b2:
+                            print("DIFF", rq["site"], a, b2, mk, repl, flush=True)
+                            break
+    ck.obligation("LogQL (%s): the segmented text planned for the hostile request is the marker's text with the marker replaced inside the value pieces (instance of request_values_keep_statement_structure), on %d (request, baseline) pairs"
+                  % (tag, ncmp), not notsubst, "; ".join(c["query"][:140] for c in notsubst[:3]))
+    n = len([c for c in usable if not reqs[c["id"]].get("is_base")]) - unmodelled
     ck.obligation("tree-level correspondence (%s): flat(pieces(plan ast)) = SQL of the real LogQL planner, byte for byte, on %d requests / %d statements" % (tag, n, nstmt),
                   not mism, "; ".join("%s => %s" % (c["query"][:120], why) for c, why in mism[:3]))
     ck.obligation("every planned tree passes pok (%s): theorem request_values_keep_statement_structure applies to it (%d statements)" % (tag, nstmt),
                   not notok, "; ".join(c["query"][:160] for c in notok[:3]))
     ck.obligation("no hostile request string occurs in a text piece of a planned tree (%s)" % tag, not leaked,
                   "; ".join("%s in %r" % (c["query"][:120], b[:80]) for c, b in leaked[:3]))
-    if notok or leaked:
-        c = (notok or [x for x, _ in leaked])[0]
+    if notok or leaked or notsubst:
+        c = (notok or [x for x, _ in leaked] or notsubst)[0]
         rq = reqs[c["id"]]
         ck.violation({"property": "C10", "kind": "the segmented text of the planned tree fails the value-independent check pok, or carries request bytes in a text piece "
                       "(model/SqlPieces.v): the statement structure is not guaranteed for this request",
@@ -370,7 +415,8 @@ def run_tree_tie(ck, sq_cases, tag):
     t[tag] = {"logql_requests": len(reqs), "planned_by_model_and_code": n, "statements": nstmt, "pieces": npieces, "value_pieces": nvals,
               "requests_whose_value_is_located_in_a_value_piece": located, "skipped": skipped,
               "stage_not_transcribed_in_LogqlPlan_v": unmodelled,
-              "per_site_[requests,value_located_in_a_value_piece]": by_site}
+              "pairs_compared_piecewise_with_the_markers_text": ncmp,
+              "per_site_[requests,value_located_in_a_value_piece,compared_with_marker]": by_site}
     ck.coverage["evaluations"] += nstmt
 
 def run_sites(ck):
